@@ -420,8 +420,8 @@ def deep_symbolic(v, depth=0) -> bool:
     """Does a value contain symbolic parts (so that a native call on it is not safe)?"""
     if is_z3(v) or isinstance(v, (SBytes, SArr, SStr, SFloat, SEnum, SPtr, STyped)):
         return True
-    if type(v).__module__.startswith("pyvc."):
-        return True  # any engine model object (streams, symbolic formats, markers)
+    if type(v).__module__.startswith("pyvc.") or getattr(type(v), "_pyvc_model", False):
+        return True  # any engine model object (streams, symbolic formats, markers, abstract lists of a loop contract)
     if depth > 3:
         return False
     if isinstance(v, (list, tuple, set, frozenset)):
